@@ -17,9 +17,9 @@ impl<'a> Rd<'a> {
     }
 }
 pub const NL: usize = 48;
-pub struct Leaves { pub n: usize, pub v: [u64; NL] }
+pub struct Leaves { pub n: usize, pub v: [u64; NL], pub skipped: bool }
 impl Leaves {
-    pub fn new() -> Self { Leaves { n: 0, v: [0; NL] } }
+    pub fn new() -> Self { Leaves { n: 0, v: [0; NL], skipped: false } }
     pub fn push(&mut self, x: u64) { if self.n < NL { self.v[self.n] = x; } self.n += 1; }
     pub fn same(&self, o: &Leaves) { assert!(self.n == o.n); assert!(self.n <= NL); let mut i = 0; while i < NL { if i < self.n { assert!(self.v[i] == o.v[i]); } i += 1; } }
 }
